@@ -1,3 +1,4 @@
+import Splipy.Lemmas.C10Cummax
 import Splipy.Lemmas.Basic
 import Splipy.Model.DerivSpline
 
@@ -300,7 +301,7 @@ theorem getDerivativeSpline_ok (o o' : Obj K) (tol : K) (dir : ℕ)
     o.rational = false ∧ dir < o.pardim ∧ o'.rational = false ∧
     o'.cps = Tensor.applyAxis (Obj.derivativeMatrix (o.basis dir) (o.cps.shape.getD dir 0)) o.cps dir ∧
     ∃ nb : Basis K, o'.bases = o.bases.set! dir nb ∧ nb.order = (o.basis dir).order - 1 ∧
-      nb.knots = (o.basis dir).knots.extract 1 ((o.basis dir).knots.size - 1) ∧
+      nb.knots = Basis.cummax ((o.basis dir).knots.extract 1 ((o.basis dir).knots.size - 1)) ∧
       nb.periodic = max ((o.basis dir).periodic - 1) (-1) := by
   unfold Obj.getDerivativeSpline at h
   split at h
@@ -332,5 +333,19 @@ theorem getDerivativeSpline_ok (o o' : Obj K) (tol : K) (dir : ℕ)
                 · injection hmk with hmk
                   subst hmk
                   exact ⟨rfl, rfl, rfl⟩
+
+/-- `getDerivativeSpline_ok` for a direction with sorted knots (every valid basis): the running maximum the
+    constructor applies is the identity, the new knots are exactly `knots[1:-1]`. -/
+theorem getDerivativeSpline_ok_sorted (o o' : Obj K) (tol : K) (dir : ℕ)
+    (h : o.getDerivativeSpline tol dir = .ok o')
+    (hsort : ∀ i, i + 1 < (o.basis dir).knots.size → (o.basis dir).kn i ≤ (o.basis dir).kn (i + 1)) :
+    o.rational = false ∧ dir < o.pardim ∧ o'.rational = false ∧
+    o'.cps = Tensor.applyAxis (Obj.derivativeMatrix (o.basis dir) (o.cps.shape.getD dir 0)) o.cps dir ∧
+    ∃ nb : Basis K, o'.bases = o.bases.set! dir nb ∧ nb.order = (o.basis dir).order - 1 ∧
+      nb.knots = (o.basis dir).knots.extract 1 ((o.basis dir).knots.size - 1) ∧
+      nb.periodic = max ((o.basis dir).periodic - 1) (-1) := by
+  obtain ⟨h1, h2, h3, h4, nb, h5, h6, h7, h8⟩ := getDerivativeSpline_ok o o' tol dir h
+  refine ⟨h1, h2, h3, h4, nb, h5, h6, ?_, h8⟩
+  rw [h7, Basis.cummax_extract_of_sorted _ _ _ (Basis.sorted_getD_of_kn _ hsort)]
 
 end Splipy
